@@ -195,9 +195,22 @@ def run(chk, tier):
                        loc=C.fn_loc(h), detail={"trace": r["trace"], "flags": r["flags"]})
             if r["flags"]:
                 chk.note(f"{short}: {r['flags']}")
+            # ... and what is consumed is the declared amount: a value reader takes exactly the element's length, the raw readers
+            # exactly the requested number of bytes (4 per requested word for read_u32)
+            want_moved = "len" if short.startswith("read_value_") else {"read_to": "length", "skip_bytes": "length", "read_u32": "4*n"}.get(short)
+            if want_moved is not None and r["outcome"] == "ok":
+                chk.expect(r["moved"] == want_moved, "position-accounting", short, "consumes-the-declared-length", want_moved, r["moved"], loc=C.fn_loc(h))
         if short == "read_value_ss":
             chk.sample({"rule": "position-accounting", "fn": short, "paths": recs})
     chk.floor("position-accounting", "decoder methods moving the cursor", n_fns, 22)
+    # read_u32_to_vec(length in bytes) asks read_u32 for length / 4 words (the basic offset table is read through it)
+    hw = [hh for hh in fx.crate("dicom_parser")["hir"] if hh["path"].endswith("StatefulDecode>::read_u32_to_vec") and "StatefulDecoder<" in hh["path"]]
+    if len(hw) != 1:
+        raise facts.MissingAnchor("StatefulDecoder::read_u32_to_vec")
+    cw = [x for c, x in H.calls(hw[0]["body"]) if c and c.endswith("::read_u32")]
+    words = H.show(H.call_args(cw[0])[1], 5) if len(cw) == 1 else None
+    chk.expect(words in ("((length Shr 2) as usize)", "((length Div 4) as usize)", "((length as usize) Shr 2)", "((length as usize) Div 4)"), "position-accounting", "read_u32_to_vec",
+               "bytes-to-words", "length >> 2 (or / 4) words", words, loc=C.fn_loc(hw[0]))
     chk.analysed["acc_functions"] = n_fns
     chk.analysed["acc_paths"] = n_paths
     # read_u32_to_vec passes (length >> 2) elements: the remainder of an offset table whose length is not a multiple of 4
